@@ -2,7 +2,8 @@
    Model: Model/Par2.v over Model/FS.v.  "Exact original" is stated through the archive's own
    hashes: the data written has the recorded length, MD5 and first-16-KiB MD5 (equal content under
    the usual local collision-freeness of MD5, which is a premise, never an axiom, here). *)
-From Gopar Require Import Model.Base Model.CRC Model.GoPath Model.FS Model.Par2 Proofs.Par2Facts Proofs.Par2Faults Proofs.Par2CreatePaths.
+From Gopar Require Import Model.Base Model.CRC Model.GoPath Model.FS Model.Par2 Proofs.Par2Facts Proofs.Par2Faults Proofs.Par2CreatePaths
+     Proofs.CreateContain Proofs.Par2Ignore Proofs.Par2LayoutOps.
 Open Scope N_scope.
 
 (* Verify (and the whole loading phase of Repair) leaves the file map unchanged - for EVERY archive
@@ -37,21 +38,67 @@ Theorem C02_repair_writes : forall md5 ix dbl fs r rp st',
 Proof. exact repair_writes. Qed.
 Print Assumptions C02_repair_writes.
 
-(* CREATE touches nothing but its own outputs: for EVERY initial file system, current directory, argument
-   spelling and fault schedule, every write event of Create targets <parPath minus extension>.par2 or
-   <parPath minus extension>.volII+CC.par2, and every other path - the inputs included - keeps its content;
-   it reads exactly the listed inputs (resolved) and lists no directory *)
+(* CREATE touches nothing but its own outputs, and none of its outputs is an input: for EVERY initial file system,
+   current directory, argument spelling and fault schedule, every write event of Create targets
+   <parPath minus extension>.par2 or <parPath minus extension>.volII+CC.par2; every path that is not of that form keeps
+   its content; Create REFUSES, before any call, an input whose resolved path is the resolved index path or a name
+   beside it that Verify/Repair would list as a recovery file of the set (<index minus .par2>.<no separator>.par2:
+   par2/create.go isParityFilePath, Model.Par2.is_parity_path), so that EVERY INPUT keeps its content whatever Create
+   returns; it reads exactly the listed inputs (resolved) and lists no directory *)
 Theorem C02_create_write_targets : forall md5 cwd parPath files p fs sched pth d ok,
   In (EvWrite pth d ok) (io_trace (snd (par2_create md5 cwd parPath files p (io_init fs sched)))) ->
   is_output parPath pth.
 Proof. exact create_write_targets. Qed.
 Print Assumptions C02_create_write_targets.
 
-Theorem C02_create_inputs_untouched : forall md5 cwd parPath files p fs sched q,
+(* the input files: no side condition on the path.  cwd is the current directory of the process, absolute as the
+   operating system gives it (abs_path = filepath.Abs); abs_path cwd f is the path Create reads the input f at
+   (C15_create_reads_are_inputs); CreateContain.create_input_paths_untouched_relative_refuted shows the model
+   run that the premise excludes *)
+Theorem C02_create_inputs_untouched : forall md5 cwd parPath files p fs sched f,
+  is_abs cwd = true -> In f files ->
+  fs_lookup (io_fs (snd (par2_create md5 cwd parPath files p (io_init fs sched)))) (abs_path cwd f) =
+  fs_lookup fs (abs_path cwd f).
+Proof. exact create_input_paths_untouched. Qed.
+Print Assumptions C02_create_inputs_untouched.
+
+(* every other path that is not an output name *)
+Theorem C02_create_other_paths_untouched : forall md5 cwd parPath files p fs sched q,
   ~ is_output parPath q ->
   fs_lookup (io_fs (snd (par2_create md5 cwd parPath files p (io_init fs sched)))) q = fs_lookup fs q.
 Proof. exact create_inputs_untouched. Qed.
-Print Assumptions C02_create_inputs_untouched.
+Print Assumptions C02_create_other_paths_untouched.
+
+(* no write call of any run - successful, refused, or cut short by a fault - targets an input, whatever the spelling
+   of the arguments: the resolved target differs from the resolved path of every input *)
+Theorem C02_create_writes_miss_inputs : forall md5 cwd parPath files p fs sched pth d ok f,
+  In (EvWrite pth d ok) (io_trace (snd (par2_create md5 cwd parPath files p (io_init fs sched)))) ->
+  In f files -> abs_path cwd pth <> abs_path cwd f.
+Proof. exact create_writes_miss_inputs. Qed.
+Print Assumptions C02_create_writes_miss_inputs.
+
+(* if Create returns Ok then no input is an output: no output name - the index, any volume name - resolves to the
+   resolved path of an input *)
+Theorem C02_create_ok_inputs_not_outputs : forall md5 cwd parPath files p st f pth,
+  fst (par2_create md5 cwd parPath files p st) = Ok tt ->
+  In f files -> is_output parPath pth -> abs_path cwd pth <> abs_path cwd f.
+Proof. exact create_ok_inputs_not_outputs. Qed.
+Print Assumptions C02_create_ok_inputs_not_outputs.
+
+Theorem C02_create_ok_input_paths_not_outputs : forall md5 cwd parPath files p st f,
+  is_abs cwd = true ->
+  fst (par2_create md5 cwd parPath files p st) = Ok tt ->
+  In f files -> ~ is_output parPath (abs_path cwd f).
+Proof. exact create_ok_input_paths_not_outputs. Qed.
+Print Assumptions C02_create_ok_input_paths_not_outputs.
+
+(* the refusal itself: an input that is the index file or would be listed as a recovery file of the set - Create
+   returns an error without a single call, in every state *)
+Theorem C02_create_parity_input_refused : forall md5 cwd parPath files p st,
+  existsb (is_parity_path (abs_path cwd parPath)) (map (abs_path cwd) files) = true ->
+  par2_create md5 cwd parPath files p st = (Err EUsage, st).
+Proof. exact create_parity_input_refused. Qed.
+Print Assumptions C02_create_parity_input_refused.
 
 Theorem C02_create_read_targets : forall md5 cwd parPath files p fs sched,
   let tr := io_trace (snd (par2_create md5 cwd parPath files p (io_init fs sched))) in
@@ -61,3 +108,35 @@ Theorem C02_create_read_targets : forall md5 cwd parPath files p fs sched,
   (forall pre suf ok, ~ In (EvList pre suf ok) tr).
 Proof. exact create_read_targets. Qed.
 Print Assumptions C02_create_read_targets.
+
+(* UNRELATED FILES AND SUB-DIRECTORIES BESIDE THE SET.  Recovery files are looked for among the files of the index
+   file's own directory (C06_discovery): a file q that this listing does not return - in particular EVERY file below a
+   sub-directory, whatever the two are called (C02_file_below_subdirectory_unlisted) - that is not the index file or a
+   protected file, nor below a path of that name, can be created or changed at will: Verify returns the same counts,
+   Repair the same outcome and repaired paths, and every path reads afterwards as after the run without q *)
+Theorem C02_verify_ignores_unlisted_file : forall md5 ix q b fs,
+  rec_pattern ix q = false ->
+  q <> ix -> starts_with q (ix ++ [SLASH]) = false ->
+  (forall d st1, new_decoder md5 ix (io_init fs []) = (Ok d, st1) -> forall info, In info (d_rec d) ->
+     file_path ix (di_name info) <> q /\ starts_with q (file_path ix (di_name info) ++ [SLASH]) = false) ->
+  fst (par2_verify md5 ix (io_init (fs_set fs q b) [])) = fst (par2_verify md5 ix (io_init fs [])).
+Proof. exact verify_ignores_unlisted_file. Qed.
+Print Assumptions C02_verify_ignores_unlisted_file.
+
+Theorem C02_repair_ignores_unlisted_file : forall md5 ix q b fs dbl,
+  rec_pattern ix q = false ->
+  q <> ix -> starts_with q (ix ++ [SLASH]) = false ->
+  (forall d st1, new_decoder md5 ix (io_init fs []) = (Ok d, st1) -> forall info, In info (d_rec d) ->
+     file_path ix (di_name info) <> q /\ starts_with q (file_path ix (di_name info) ++ [SLASH]) = false) ->
+  let r' := par2_repair md5 ix dbl (io_init (fs_set fs q b) []) in
+  let r := par2_repair md5 ix dbl (io_init fs []) in
+  fst r' = fst r /\
+  (forall p, Par1Clean.read_res (fs_set fs q b) p = Par1Clean.read_res fs p ->
+     Par1Clean.read_res (io_fs (snd r')) p = Par1Clean.read_res (io_fs (snd r)) p).
+Proof. exact repair_ignores_unlisted_file. Qed.
+Print Assumptions C02_repair_ignores_unlisted_file.
+
+Theorem C02_file_below_subdirectory_unlisted : forall ix x y,
+  rec_pattern ix ((strip_ext ix ++ [DOT]) ++ x ++ SLASH :: y) = false.
+Proof. exact rec_pattern_below_subdirectory. Qed.
+Print Assumptions C02_file_below_subdirectory_unlisted.
